@@ -503,9 +503,16 @@ fn model_ix_specs_eq(got: &[netflow_parser::variable_versions::ipfix::TemplateFi
 }
 
 /// M-cache: the library's four maps equal the model cache (latest definition per id per protocol)
-fn cache_matches_model(p: &NetflowParser, ex: &Exporter) -> Result<(), Div> {
+pub fn cache_matches_model(p: &NetflowParser, ex: &Exporter) -> Result<(), Div> {
     let keys = |a: Vec<u16>, b: Vec<u16>, what: &str| -> Result<(), Div> {
         if a != b {
+            if a.len() + b.len() > 64 {
+                let sa: std::collections::BTreeSet<u16> = a.iter().cloned().collect();
+                let sb: std::collections::BTreeSet<u16> = b.iter().cloned().collect();
+                let missing: Vec<u16> = sb.difference(&sa).take(8).cloned().collect();
+                let extra: Vec<u16> = sa.difference(&sb).take(8).cloned().collect();
+                return Err(div(&format!("cache/{}", what), "keys", format!("library holds {} ids, the model (every complete template record received) holds {}; first ids missing from the library {:?}, first ids only in the library {:?}", a.len(), b.len(), missing, extra)));
+            }
             return Err(div(&format!("cache/{}", what), "keys", format!("library holds ids {:?}, the model (every complete template record received) holds {:?}", a, b)));
         }
         Ok(())
@@ -545,10 +552,15 @@ fn cache_matches_model(p: &NetflowParser, ex: &Exporter) -> Result<(), Div> {
 
 pub fn run_c06(w: &mut W) {
     let mut st = Stats::default();
+    super::idspace::run(w, "C06", 0, &[0, 1, 2, 3]);
     for idx in w.indices() {
         let mut rng = w.begin_case(idx, "cache-history");
         if idx % 50 == 49 {
             c06_finding_family(w, &mut rng);
+            continue;
+        }
+        if idx % 5 == 3 {
+            c06_hostile_family(w, &mut rng);
             continue;
         }
         let np = 1 + rng.usize(3);
@@ -772,6 +784,124 @@ pub fn run_c06(w: &mut W) {
     w.rep.count("records", st.records);
 }
 
+/// A packet that contains only data sets (every set id >= 256) for ids the parser may hold, with
+/// arbitrary bodies: whatever the library makes of it, it defines nothing.
+fn data_only_packet(rng: &mut Rng, v9: bool, ids: &[u16]) -> Vec<u8> {
+    // hostile template records may carry ids below 256; as a *set* id those mean template sets
+    let ids: Vec<u16> = ids.iter().cloned().filter(|x| *x >= 256).collect();
+    let ids = &ids[..];
+    let nsets = 1 + rng.usize(3);
+    let mut body = vec![];
+    for _ in 0..nsets {
+        let id = if !ids.is_empty() && rng.chance(4, 5) { *rng.pick(ids) } else { 256 + rng.below(6) as u16 };
+        let n = match rng.below(6) {
+            0 => 0,
+            1 => 1 + rng.usize(3),
+            2 => 64 + rng.usize(200),
+            _ => rng.usize(48),
+        };
+        let payload = match rng.below(4) {
+            0 => vec![0u8; n],
+            1 => vec![0xffu8; n],
+            _ => rng.bytes(n),
+        };
+        body.extend_from_slice(&id.to_be_bytes());
+        body.extend_from_slice(&((4 + n) as u16).to_be_bytes());
+        body.extend(payload);
+    }
+    let mut o = vec![];
+    if v9 {
+        o.extend_from_slice(&9u16.to_be_bytes());
+        o.extend_from_slice(&(nsets as u16).to_be_bytes());
+        o.extend(rng.bytes(16));
+    } else {
+        o.extend_from_slice(&10u16.to_be_bytes());
+        o.extend_from_slice(&((16 + body.len()) as u16).to_be_bytes());
+        o.extend(rng.bytes(12));
+    }
+    o.extend(body);
+    o
+}
+
+/// Hostile cache histories: templates of any shape (zero-length fields, unsupported widths,
+/// counts that disagree with the bytes), data that cannot be decoded, mutated packets. No model of
+/// what should be cached is attached; the universal clauses are decided: an id, once cached for a
+/// protocol, never disappears; a call never touches another parser; packets without any template
+/// set leave all four maps identical.
+fn c06_hostile_family(w: &mut W, rng: &mut Rng) {
+    let np = 1 + rng.usize(2);
+    let mut sut = Sut::new(np);
+    let mut hs: Vec<crate::gen_host::Hostile> = (0..np).map(|_| crate::gen_host::Hostile::new()).collect();
+    let mut ex = Exporter::new();
+    let cfg = Cfg::default();
+    let nops = 4 + rng.usize(10);
+    let mut shape = String::from("hostile:");
+    let mut prev: Vec<u8> = vec![];
+    for _ in 0..nops {
+        let pi = rng.usize(np);
+        let before: Vec<Snap> = sut.parsers.iter().map(snap).collect();
+        let k = rng.below(10);
+        let mut data_only = false;
+        let buf: Vec<u8> = if k < 4 {
+            shape.push('H');
+            hs[pi].buffer(rng, &w.pools)
+        } else if k < 8 {
+            shape.push('D');
+            data_only = true;
+            let v9 = rng.chance(1, 2);
+            let ids: Vec<u16> = if v9 { before[pi].v9_t.keys().chain(before[pi].v9_o.keys()).cloned().collect() } else { before[pi].ix_t.keys().chain(before[pi].ix_o.keys()).cloned().collect() };
+            data_only_packet(rng, v9, &ids)
+        } else {
+            shape.push('M');
+            let b = crate::gen_host::conformant_packet(rng, &mut ex, &cfg, &w.pools);
+            let m = if rng.chance(1, 2) { crate::gen_host::mutate(rng, &b, &prev) } else { b.clone() };
+            prev = b;
+            m
+        };
+        let r = std::panic::catch_unwind(std::panic::AssertUnwindSafe(|| sut.parse(pi, &buf)));
+        if r.is_err() {
+            crate::util::take_panic();
+            w.rep.panics_foreign += 1;
+            return;
+        }
+        w.rep.count("calls", 1);
+        w.rep.count("hostile_family.calls", 1);
+        let after = snap(&sut.parsers[pi]);
+        let verdict: Result<(), Div> = (|| {
+            for (j, b) in before.iter().enumerate() {
+                if j != pi && snap(&sut.parsers[j]) != *b {
+                    return Err(div("cache/isolation", "changed", format!("a call on parser {} changed the caches of parser {}", pi, j)));
+                }
+            }
+            let b = &before[pi];
+            for k in b.v9_t.keys().chain(b.v9_o.keys()) {
+                if !after.v9_t.contains_key(k) && !after.v9_o.contains_key(k) {
+                    return Err(div("cache/eviction", "v9", format!("V9 template id {} disappeared", k)));
+                }
+            }
+            for k in b.ix_t.keys().chain(b.ix_o.keys()) {
+                if !after.ix_t.contains_key(k) && !after.ix_o.contains_key(k) {
+                    return Err(div("cache/eviction", "ipfix", format!("IPFIX template id {} disappeared", k)));
+                }
+            }
+            if data_only {
+                w.rep.count("noop.hostile_data_only", 1);
+                if after != *b {
+                    return Err(div("cache/data-only", "changed", format!("caches changed by a packet that contains only data sets: {}", snap_diff(&after, b))));
+                }
+            }
+            Ok(())
+        })();
+        if let Err(d) = verdict {
+            w.rep.violation(sig("C06", &d), &d, sut.replay_json());
+            return;
+        }
+    }
+    let s = snap(&sut.parsers[0]);
+    w.rep.count("hostile_family.cache_entries_at_end", s.total() as u64);
+    w.rep.shape(&shape);
+}
+
 /// listed finding: the IPFIX template parser does not use field_count to delimit a record
 fn c06_finding_family(w: &mut W, rng: &mut Rng) {
     let cfg = Cfg { small_ids: true, ..Cfg::default() };
@@ -844,7 +974,8 @@ pub fn run_c07(w: &mut W) {
         // 0 never defined, 1 only for the other protocol, 2 only in another parser,
         // 3 only mentioned by a template record the parser rejected (IPFIX: no non-zero-length
         //   field) or that arrived truncated (both protocols)
-        let reason = rng.below(4);
+        // 4 received and used, then removed from the public cache map by the application
+        let reason = rng.below(5);
         let mut ex = Exporter::new();
         let mut sut = Sut::new(2);
         // some known templates + the withheld one
@@ -925,7 +1056,24 @@ pub fn run_c07(w: &mut W) {
                 w.rep.count("truncated_template_packets_sent", 1);
             }
         }
-        w.rep.count(&format!("reason.{}", ["never-defined", "other-protocol-only", "other-parser-only", "rejected-or-truncated-template-only"][reason as usize]), 1);
+        if reason == 4 {
+            // the template is received, data for it is decoded (so anything the parser remembers
+            // beside the public maps is warm), then the application expires the id
+            sut.parse(0, &tmpl_pkt);
+            let warm = if v9 { shadow.v9_wrap(&mut rng, &cfg, vec![data_fs_v9.clone().unwrap()]).wire() } else { shadow.ipfix_wrap(&mut rng, vec![data_set_ix.clone().unwrap()]).wire() };
+            let r = sut.parse(0, &warm);
+            if r.len() != 1 || r[0].is_error() {
+                w.rep.inconclusive += 1; // a conformant packet that does not decode is C04/C05's business
+                continue;
+            }
+            let was = sut.evict(0, if v9 { "v9.templates" } else { "ipfix.templates" }, wid);
+            if !was {
+                w.rep.inconclusive += 1;
+                continue;
+            }
+            w.rep.count("templates_removed_by_application", 1);
+        }
+        w.rep.count(&format!("reason.{}", ["never-defined", "other-protocol-only", "other-parser-only", "rejected-or-truncated-template-only", "removed-by-application"][reason as usize]), 1);
         // the packet with the orphan data set: known data sets before/after it
         let pos = rng.below(3); // 0 first, 1 middle, 2 last
         let mk_known_v9 = |ex: &Exporter, rng: &mut Rng| -> Option<V9FlowSet> {
